@@ -288,13 +288,21 @@ def run(res, info):
             # binding energy source: explicit / user table / RATE12
             # ... or, for the RR07 desorption cut-offs, exactly at / below the run-time cut-off of the process
             cut = {"photon": GRAIN_ENV["eb_uvd"], "cosmicray": GRAIN_ENV["eb_crd"], "h2": GRAIN_ENV["eb_h2d"]}.get(proc) if mname.startswith("rr07") else None
-            src = rng.choice(["explicit", "user", "rate12"] + (["at-cutoff", "at-cutoff", "below-cutoff", "above-cutoff"] if cut else []))
+            src = rng.choice(["explicit", "user", "user-updated", "rate12"] + (["at-cutoff", "at-cutoff", "below-cutoff", "above-cutoff"] if cut else []))
             fixed_eb = {"at-cutoff": cut, "below-cutoff": cut and cut * 0.5, "above-cutoff": cut and cut + 1.0}.get(src)
             ice = [s for s in r.reactants if s.is_surface]
+            if src == "user-updated":
+                # the energies were already read once (a first generation) before the user table is changed: the new values count
+                for s in ice:
+                    _ = s.binding_energy
+                try:
+                    r.rateexpr(MODELS[mname](group=group))
+                except Exception:
+                    pass
             for s in ice:
                 if src == "explicit":
                     s.binding_energy = 2222.0 + len(s.name)
-                elif src == "user":
+                elif src in ("user", "user-updated"):
                     chemistrydata.user_binding_energy[s.name] = 3333.0 + len(s.name)
                 elif fixed_eb is not None:
                     s.binding_energy = fixed_eb
@@ -302,7 +310,7 @@ def run(res, info):
                     s.photon_yield = 2.5e-3
             want_eb = []
             for s in ice:
-                want_eb.append(2222.0 + len(s.name) if src == "explicit" else 3333.0 + len(s.name) if src == "user"
+                want_eb.append(2222.0 + len(s.name) if src == "explicit" else 3333.0 + len(s.name) if src in ("user", "user-updated")
                                else fixed_eb if fixed_eb is not None else chemistrydata.rate12_binding_energy.get(s.gasname))
             res.count(f"binding-energy={src}")
             grain = MODELS[mname](group=group)
